@@ -165,6 +165,7 @@ class Generated:
         self.rewrites = []
         self.functions = {}      # key -> info
         self.assumptions = []
+        self.shape_changed = {}  # fn key -> notes (loop structure differs from the contract table)
 
     def text(self):
         return "\n".join(self.lines) + "\n"
@@ -257,7 +258,10 @@ def gen_fn(fn, g, probe_labels, unit_name):
             last = 0
             for k in sorted(fn.loops):
                 if k > len(offs):
-                    raise Undecided("%s: loop #%d not found (function has %d loops)" % (where, k, len(offs)))
+                    # the loop structure of the function changed: the contracts of the missing
+                    # loops are dropped (recorded); the verifier decides on what is left
+                    g.shape_changed.setdefault(fn.key, []).append(
+                        "loop #%d has a contract but the function has %d loops" % (k, len(offs)))
             for idx, (kw, kwpos, bpos) in enumerate(offs, start=1):
                 if idx in fn.loops:
                     pieces.append(b[last:bpos])
